@@ -124,6 +124,11 @@ def build_program(tokens, kinds):
         lines.append(".link {B}")
     lines += before
     off = 0
+    if needs_base:
+        # no label and no '.' exactly at the link base: an address there is a bare base promise, a special case of the general
+        # 'base + offset' polynomial that hides whatever happens to the offset
+        lines.append(".blkb 6")
+        off = 6
     # labels: one before the expression (offset 0 + 2 bytes of data), others after
     lab_off = {}
     for i, (v, k) in enumerate(addr.items()):
@@ -199,6 +204,22 @@ def h_repeat_dot(params, vals, ctx):
         if not (o.code[2 * k] + 256 * o.code[2 * k + 1] == want % 65536):
             return False
     return True
+
+
+def h_dot_after_skip(params, vals, ctx):
+    """'.' in an assignment that directly follows a location-counter assignment is the NEW location."""
+    a, b, c = vals["A"], vals["B"], vals["C"]
+    require(0 <= b < 60000 and 0 <= c <= 20 and -1000 <= a <= 1000)
+    text = {"rel": ".link {B}\n.byte 1\n. = . + {C}\nX = . + {A}\nY = X - .\n.byte 2\n",
+            "abs": ".link {B}\n.byte 1\n. = {B} + 1 + {C}\nX = . + {A}\nY = X - .\n.byte 2\n",
+            "twice": ".link {B}\n.byte 1\n. = . + {C}\n. = . + 3\nX = . + {A}\nY = X - .\n.byte 2\n"}[params["kind"]]
+    o = assemble([("a.mac", text)], vals, route=ctx.route)
+    ctx.observe_outcome(o)
+    ctx.reach(o.status == "ok")
+    if o.status != "ok" or o.errors:
+        return False
+    here = b + 1 + c + (3 if params["kind"] == "twice" else 0)
+    return o.symbol("X") == here + a and o.symbol("Y") == a and len(o.code) == here - b + 1
 
 
 def h_shadow(params, vals, ctx):
@@ -367,6 +388,9 @@ def obligations(tier, seed):
         obs.append(ob)
     for op in ("+", "*", "/", "%"):
         obs.append(Ob(oid=f"shadowed-export/{op}", harness="pdpverif.props.c05:h_shadow", params={"op": op}, vars={"A": "int", "B": "int", "C": "int"}, timeout=300, per_path=60))
+    for kind in ("rel", "abs", "twice"):
+        obs.append(Ob(oid=f"dot-after-skip/{kind}", harness="pdpverif.props.c05:h_dot_after_skip", params={"kind": kind}, vars={"A": "int", "B": "int", "C": "int"},
+                      timeout=300, per_path=60))
     # the same statement at several addresses
     for op in ("/", "%", "<<", ">>", "_", "+", "*", "-"):
         obs.append(Ob(oid=f"repeat-dot/{op}", harness="pdpverif.props.c05:h_repeat_dot", params={"op": op, "n": 3}, vars={"A": "int", "B": "int", "C": "int"},
